@@ -84,7 +84,21 @@ func waitReach(w *watermark.WaterMark, want uint64, patience time.Duration) (uin
 	}
 }
 
+// c13Patience: how long a quiescent watermark or a waiter may take before its state is examined.
+// 20 s (normal latency is microseconds); once a violation of this kind has been found in this
+// process the remaining cases only wait 1 s, so that a broken tree does not cost hours.
+var c13Hurry atomic.Bool
+
+func c13Patience() time.Duration {
+	if c13Hurry.Load() {
+		return time.Second
+	}
+	return 20 * time.Second
+}
+
 func goroutineDump() string {
+	c13Hurry.Store(true) // only called when something did not arrive in time
+
 	buf := make([]byte, 1<<20)
 	n := runtime.Stack(buf, true)
 	return string(buf[:n])
@@ -177,7 +191,7 @@ func wmSeq(c core.Case, res *core.Result) {
 			trace = append(trace, fmt.Sprintf("Done(%d)", t))
 		default:
 			// quiescent point: every mark sent so far must take effect without further calls
-			d, ok := waitReach(w, m.L, 20*time.Second)
+			d, ok := waitReach(w, m.L, c13Patience())
 			quiescent++
 			if !ok {
 				fail("never-catches-up", "DoneUntil()=%d stays below the logical mark %d although no call is outstanding\n%s", d, m.L, goroutineDump())
@@ -200,7 +214,7 @@ func wmSeq(c core.Case, res *core.Result) {
 			return
 		}
 	}
-	d, ok := waitReach(w, m.L, 20*time.Second)
+	d, ok := waitReach(w, m.L, c13Patience())
 	if !ok {
 		fail("never-catches-up", "after every index was finished DoneUntil()=%d stays below %d\n%s", d, m.L, goroutineDump())
 		return
@@ -348,7 +362,7 @@ func wmConc(c core.Case, res *core.Result) {
 	}
 	// everything begun has been finished: the mark must reach the largest index without further calls
 	if want := maxTs.Load(); want > 0 {
-		if d, ok := waitReach(w, want, 20*time.Second); !ok {
+		if d, ok := waitReach(w, want, c13Patience()); !ok {
 			res.Violate("C13", "C13/conc/never-catches-up", "every begun index is finished but DoneUntil()=%d stays below %d\n%s", d, want, goroutineDump())
 		}
 	}
@@ -431,7 +445,7 @@ func wmWait(c core.Case, res *core.Result) {
 			time.Sleep(time.Duration(r.Intn(100)) * time.Microsecond)
 		}
 	}
-	if d, ok := waitReach(w, top, 20*time.Second); !ok {
+	if d, ok := waitReach(w, top, c13Patience()); !ok {
 		res.Violate("C13", "C13/wait/never-catches-up", "DoneUntil()=%d stays below %d after every index was finished\n%s", d, top, goroutineDump())
 		return
 	}
@@ -453,7 +467,7 @@ func wmWait(c core.Case, res *core.Result) {
 				res.Violate("C13", "C13/wait/returned-early", "WaitForMark(%d) returned nil but DoneUntil() read %d right afterwards", wt.t, a)
 			}
 			reached++
-		case <-time.After(20 * time.Second):
+		case <-time.After(c13Patience()):
 			dump := goroutineDump()
 			if strings.Contains(dump, "WaitForMark") {
 				res.Violate("C13", "C13/wait/lost-wakeup", "DoneUntil()=%d >= %d was observed 20 s ago and the waiter is still parked in WaitForMark\n%s", w.DoneUntil(), wt.t, dump)
@@ -482,7 +496,7 @@ func wmWait(c core.Case, res *core.Result) {
 				res.Violate("C13", "C13/wait/wrong-context-error", "WaitForMark(%d) returned %v after its context was cancelled, want context.Canceled", wt.t, err)
 			}
 			cancelled++
-		case <-time.After(20 * time.Second):
+		case <-time.After(c13Patience()):
 			res.Violate("C13", "C13/wait/ignores-context", "WaitForMark(%d) did not return 20 s after its context was cancelled\n%s", wt.t, goroutineDump())
 			return
 		}
